@@ -5,6 +5,8 @@ import (
 	"sync"
 
 	"github.com/tevino/abool"
+
+	"github.com/safing/portbase/utils/vhook"
 )
 
 var (
@@ -185,6 +187,7 @@ func setConfigOption(key string, value any, push bool) (err error) {
 	}
 
 	// finalize change, activate triggers
+	vhook.At("config.set.presignal")
 	signalChanges()
 
 	return SaveConfig()
@@ -227,6 +230,7 @@ func setDefaultConfigOption(key string, value interface{}, push bool) (err error
 	}
 
 	// finalize change, activate triggers
+	vhook.At("config.set.presignal")
 	signalChanges()
 
 	// Do not save the configuration, as it only saves the active values, not the
